@@ -187,3 +187,58 @@ func verifHarness_C12_close_foreign_bank() {
 	verifAssert(*p == 7 && s == "ab", "C12:close-does-not-touch-memory-others-may-still-read")
 	verifReach("end")
 }
+
+// decoding through shared codec trees of every codec kind: the C05 schema list
+// (null, primitives, fixed, record, enum, array, map, nullable and general
+// unions) as a field, behind a pointer, as array items and as map values, into
+// private targets. Any per-decode state a codec keeps in itself is a store into
+// shared memory.
+func verifHarness_C12_decode_schema_matrix() {
+	verifAllocMax(4096)
+	all := verifC05Schemas()
+	fs := all[verifChoice("schema", len(all))]
+	var proto any
+	var mk func() unsafe.Pointer
+	switch verifChoice("target", 8) {
+	case 0:
+		proto, mk = &verifC05_field_int64{}, func() unsafe.Pointer { return unsafe.Pointer(new(verifC05_field_int64)) }
+	case 1:
+		proto, mk = &verifC05_ptr_int64{}, func() unsafe.Pointer { return unsafe.Pointer(new(verifC05_ptr_int64)) }
+	case 2:
+		proto, mk = &verifC05_slice_int64{}, func() unsafe.Pointer { return unsafe.Pointer(new(verifC05_slice_int64)) }
+		fs = Schema{Type: "array", Object: &SchemaObject{Items: fs}}
+	case 3:
+		proto, mk = &verifC05_map_int64{}, func() unsafe.Pointer { return unsafe.Pointer(new(verifC05_map_int64)) }
+		fs = Schema{Type: "map", Object: &SchemaObject{Values: fs}}
+	case 4:
+		proto, mk = &verifC05_field_string{}, func() unsafe.Pointer { return unsafe.Pointer(new(verifC05_field_string)) }
+	case 5:
+		proto, mk = &verifC05_map_string{}, func() unsafe.Pointer { return unsafe.Pointer(new(verifC05_map_string)) }
+		fs = Schema{Type: "map", Object: &SchemaObject{Values: fs}}
+	case 6:
+		proto, mk = &verifC05_field_bytes{}, func() unsafe.Pointer { return unsafe.Pointer(new(verifC05_field_bytes)) }
+	case 7:
+		proto, mk = &verifC05_slice_structX{}, func() unsafe.Pointer { return unsafe.Pointer(new(verifC05_slice_structX)) }
+		fs = Schema{Type: "array", Object: &SchemaObject{Items: fs}}
+	}
+	s := Schema{Type: "record", Object: &SchemaObject{Name: "r", Fields: []SchemaRecordField{{Name: "F", Type: fs}}}}
+	c, err := s.Codec(proto)
+	if err != nil {
+		verifReach("end")
+		return
+	}
+	d := refGen(&s, "d", 0)
+	enc := refEncode(&s, &d, nil)
+	// the same decode running alone, before any other goroutine exists
+	r0 := NewReadBuf(enc)
+	alone := c.Read(r0, mk()) != nil
+	r0.ExtractResourceBank().Close()
+	verifConcurrently(func() {
+		r := NewReadBuf(enc)
+		err := c.Read(r, mk())
+		rb := r.ExtractResourceBank()
+		verifAssert((err != nil) == alone, "C12:decode-result-as-when-running-alone")
+		verifKeepAlive(rb)
+	})
+	verifReach("end")
+}
